@@ -2,6 +2,7 @@ package main
 
 import (
 	"fmt"
+	"os"
 	"strings"
 	"sync"
 	"time"
@@ -96,6 +97,9 @@ func (d schedDriver) Create(k string, r *release.Release) error {
 	d.s.gate(d.id)
 	defer d.s.release()
 	err := d.Driver.Create(k, r)
+	if os.Getenv("CORR_DEBUG") != "" {
+		fmt.Fprintf(os.Stderr, "op%d Create %s err=%v\n", d.id, k, err)
+	}
 	if err == nil {
 		d.mu.Lock()
 		*d.created = append(*d.created, k)
@@ -106,12 +110,31 @@ func (d schedDriver) Create(k string, r *release.Release) error {
 func (d schedDriver) Update(k string, r *release.Release) error {
 	d.s.gate(d.id)
 	defer d.s.release()
-	return d.Driver.Update(k, r)
+	err := d.Driver.Update(k, r)
+	if os.Getenv("CORR_DEBUG") != "" {
+		fmt.Fprintf(os.Stderr, "op%d Update %s status=%s err=%v\n", d.id, k, r.Info.Status, err)
+	}
+	return err
+}
+func (d schedDriver) Delete(k string) (*release.Release, error) {
+	r, err := d.Driver.Delete(k)
+	if os.Getenv("CORR_DEBUG") != "" {
+		fmt.Fprintf(os.Stderr, "op%d Delete %s err=%v\n", d.id, k, err)
+	}
+	return r, err
 }
 func (d schedDriver) Query(q map[string]string) ([]*release.Release, error) {
 	d.s.gate(d.id)
 	defer d.s.release()
-	return d.Driver.Query(q)
+	rs, err := d.Driver.Query(q)
+	if os.Getenv("CORR_DEBUG") != "" {
+		var l []string
+		for _, x := range rs {
+			l = append(l, fmt.Sprintf("v%d=%s", x.Version, x.Info.Status))
+		}
+		fmt.Fprintf(os.Stderr, "op%d Query %v -> %v err=%v\n", d.id, q, l, err)
+	}
+	return rs, err
 }
 
 // schedKube gates the cluster mutation of one operation and remembers that it happened
@@ -180,6 +203,10 @@ func corrConc(seed uint64, n int, tier string, out string, replay string) {
 		c.SameContent = id.Index%3 == 1
 		if id.Index%7 == 5 {
 			c.MaxHistory = 1 + id.Index/7%2
+			// on the Secret driver only: the memory driver hands out the stored objects themselves (recorded finding),
+			// and under a limit a pruning operation then sees half-updated records (status changed in place, the
+			// label index not yet) -- cascades of that finding, not new information
+			c.Backend = "secrets"
 		}
 		// a random interleaving of 6 steps each
 		left := make([]int, np)
@@ -407,22 +434,6 @@ func concRun(m *Model, rep *Report, c concCase, seed uint64, idx int) {
 			rep.Issue(Issue{Kind: "monitor", Fingerprint: "C09:two-creators", What: fmt.Sprintf("%d operations created the record %s", cnt, k), Case: c, Seed: seed, Index: idx})
 		}
 	}
-	for i, e := range errs {
-		if e == nil {
-			continue
-		}
-		msg := e.Error()
-		okMsg := strings.Contains(msg, "already exists") || strings.Contains(msg, "in progress") || strings.Contains(msg, "cannot re-use a name") || strings.Contains(msg, "cannot reuse a name") || strings.Contains(msg, "has no deployed releases")
-		if !okMsg && c.MaxHistory > 0 && strings.Contains(msg, "not found") && !touched[i] && len(created[i]) == 0 {
-			// two operations prune the same old record: the slower one's delete fails and it gives up before creating anything
-			rep.Issue(Issue{Kind: "monitor", Fingerprint: "C09:history-limit:loser-not-found", What: fmt.Sprintf("operation %d (%s) lost with a not-found error from pruning instead of already-exists / in-progress: %s", i, c.Kinds[i], trunc(msg, 160)), Case: c, Seed: seed, Index: idx})
-		} else if !okMsg {
-			rep.Issue(Issue{Kind: "monitor", Fingerprint: "C09:unexpected-error", What: fmt.Sprintf("operation %d (%s) failed with: %s", i, c.Kinds[i], trunc(msg, 200)), Case: c, Seed: seed, Index: idx})
-		}
-		if touched[i] || len(created[i]) > 0 {
-			rep.Issue(Issue{Kind: "monitor", Fingerprint: "C09:loser-touched", What: fmt.Sprintf("operation %d (%s) failed (%s) but had created a record or touched release resources", i, c.Kinds[i], trunc(msg, 120)), Case: c, Seed: seed, Index: idx})
-		}
-	}
 	// under a history limit: did an operation create a revision number the starting history already held (the record
 	// was pruned by a concurrent operation and its number used again)?
 	reused := ""
@@ -437,10 +448,31 @@ func concRun(m *Model, rep *Report, c concCase, seed uint64, idx int) {
 			}
 		}
 	}
+	for i, e := range errs {
+		if e == nil {
+			continue
+		}
+		msg := e.Error()
+		okMsg := strings.Contains(msg, "already exists") || strings.Contains(msg, "in progress") || strings.Contains(msg, "cannot re-use a name") || strings.Contains(msg, "cannot reuse a name") || strings.Contains(msg, "has no deployed releases")
+		if !okMsg && c.MaxHistory > 0 && strings.Contains(msg, "not found") && !touched[i] && len(created[i]) == 0 {
+			// two operations prune the same old record: the slower one's delete fails and it gives up before creating anything
+			rep.Issue(Issue{Kind: "monitor", Fingerprint: "C09:history-limit:loser-not-found", What: fmt.Sprintf("operation %d (%s) lost with a not-found error from pruning instead of already-exists / in-progress: %s", i, c.Kinds[i], trunc(msg, 160)), Case: c, Seed: seed, Index: idx})
+		} else if !okMsg && reused != "" {
+			// a consequence of the recorded finding: the operation that re-created a pruned revision number had its own
+			// record pruned in turn and its final update found nothing
+			rep.Issue(Issue{Kind: "monitor", Fingerprint: "C09:history-limit:pruned-revision-reused", What: fmt.Sprintf("operation %d (%s) failed late with %q after %s (in the starting history) had been pruned and created again", i, c.Kinds[i], trunc(msg, 120), reused), Case: c, Seed: seed, Index: idx})
+			continue
+		} else if !okMsg {
+			rep.Issue(Issue{Kind: "monitor", Fingerprint: "C09:unexpected-error", What: fmt.Sprintf("operation %d (%s) failed with: %s", i, c.Kinds[i], trunc(msg, 200)), Case: c, Seed: seed, Index: idx})
+		}
+		if touched[i] || len(created[i]) > 0 {
+			rep.Issue(Issue{Kind: "monitor", Fingerprint: "C09:loser-touched", What: fmt.Sprintf("operation %d (%s) failed (%s) but had created a record or touched release resources", i, c.Kinds[i], trunc(msg, 120)), Case: c, Seed: seed, Index: idx})
+		}
+	}
 	for _, v := range ledgerViolations(before, after) {
 		if strings.Contains(v, "marked deployed") || strings.Contains(v, "duplicate") || strings.Contains(v, "pending") {
 			fp := "C09:history:" + strings.Fields(v)[0]
-			if reused != "" && strings.Contains(v, "marked deployed") {
+			if reused != "" {
 				fp = "C09:history-limit:pruned-revision-reused"
 				v += " (" + reused + " was in the starting history, was pruned by one operation and created again by another)"
 			}
@@ -449,7 +481,11 @@ func concRun(m *Model, rep *Report, c concCase, seed uint64, idx int) {
 	}
 	for _, r := range after {
 		if strings.HasPrefix(r.Status, "pending") {
-			rep.Issue(Issue{Kind: "monitor", Fingerprint: "C09:history:pending", What: fmt.Sprintf("revision %d is still %s at quiescence", r.Rev, r.Status), Case: c, Impl: after, Seed: seed, Index: idx})
+			fp := "C09:history:pending"
+			if reused != "" {
+				fp = "C09:history-limit:pruned-revision-reused"
+			}
+			rep.Issue(Issue{Kind: "monitor", Fingerprint: fp, What: fmt.Sprintf("revision %d is still %s at quiescence", r.Rev, r.Status), Case: c, Impl: after, Seed: seed, Index: idx})
 		}
 	}
 }
